@@ -209,11 +209,16 @@ Section Match.
     Iface T_ast_Stmt (Ptr T_P_ast_ExprStmt (Struct T_ast_ExprStmt
       [Iface T_ast_Expr (Ptr T_P_pgo_Dots (Struct T_pgo_Dots [Nil T_ast_Expr; Atom T_pgo_DotsPos i]))])).
 
-  (* the list the container matcher/replacer is compiled from *)
+  (* the list the container matcher/replacer is compiled from: the statements of the patch between
+     an implicit leading and an implicit trailing "...".  The leading one is left out (id_start = 0)
+     when the patch itself begins with a "..." at the very place it would be put *)
+  Definition with_implicit (id_start id_end : N) (stmts : list val) : list val :=
+    (if N.eqb id_start 0 then [] else [dots_stmt id_start]) ++ stmts ++ [dots_stmt id_end].
+
   Definition stmt_pattern (id_start id_end : N) (stmts : list val) : val :=
     match stmts with
     | [] => Nil T_S_ast_Stmt
-    | _ => Slice T_S_ast_Stmt (dots_stmt id_start :: stmts ++ [dots_stmt id_end])
+    | _ => Slice T_S_ast_Stmt (with_implicit id_start id_end stmts)
     end.
 
   Definition mtch_stmts (id_start id_end : N) (stmts : list val) (t : val) (d : data) : option data :=
